@@ -165,7 +165,7 @@ PROPS["C11"] = dict(
     assumptions=COMMON_ASSUME + ["hooks: sstables.VerifSetWriterOpenHook / VerifWrapWriters (tag verif)"],
     require_labels=["kind=merge", "kind=compact-latest", "kind=compact-skip", "leg=system", "fault-fired", "fault-fired-at-close", "child-stopped", "leg=system-syscall-fault", "operation-returned-error"],
     quick=dict(shards=16, checks=150, shrink_s=5),
-    thorough=dict(shards=16, checks=1500, timeout_s=3600),
+    thorough=dict(shards=16, checks=8000, timeout_s=3600),
 )
 
 PROPS["C07"] = dict(
